@@ -691,6 +691,8 @@ class MyPyAstVisitor:
         # Create Result objects
         name_generator = result_name_generator()
         inferred_results = []
+        # Every entry of the docstring can only describe one of the results
+        matched_docstrings: list[ResultDocstring] = []
         if 1 == len(result_array) == len(result_array[0]) == len(docstrings):
             result_name = docstrings[0].name or next(name_generator)
             inferred_results = [
@@ -722,8 +724,11 @@ class MyPyAstVisitor:
                             result_docstring = docstrings[0]
                     else:
                         for docstring in docstrings:
-                            if hash(docstring.type) == hash(result_type):
+                            if hash(docstring.type) == hash(result_type) and not any(
+                                docstring is matched for matched in matched_docstrings
+                            ):
                                 result_docstring = docstring
+                                matched_docstrings.append(docstring)
                                 break
 
                 result_name = result_docstring.name or next(name_generator)
